@@ -45,6 +45,10 @@ impl<T> PartitionImpl<T> where T: Clone + Eq + Hash {
         while x != root {
             let t = x;
             x = self.parent[x];
+            #[cfg(feature = "verif")]
+            if self.parent[t] != root {
+                crate::verif_hooks::hit("partition.compress");
+            }
             self.parent[t] = root;
         }
 
@@ -61,6 +65,8 @@ impl<T> PartitionImpl<T> where T: Clone + Eq + Hash {
         let y = self.root_index(b);
 
         if x != y {
+            #[cfg(feature = "verif")]
+            crate::verif_hooks::hit("partition.link");
             let rx = self.rank[x];
             let ry = self.rank[y];
 
@@ -152,6 +158,10 @@ impl IntPartitionImpl {
         while x != root {
             let t = x;
             x = self.parent[x];
+            #[cfg(feature = "verif")]
+            if self.parent[t] != root {
+                crate::verif_hooks::hit("partition.compress");
+            }
             self.parent[t] = root;
         }
 
@@ -167,6 +177,8 @@ impl IntPartitionImpl {
         let y = self.root_index(b);
 
         if x != y {
+            #[cfg(feature = "verif")]
+            crate::verif_hooks::hit("partition.link");
             let rx = self.rank[x];
             let ry = self.rank[y];
 
